@@ -255,6 +255,7 @@ def families(tier='quick', seed=0):
     # the same field with and without a cast: the uncast entry is missing on a number, the cast one matches
     add('sequence', 'f|str(f)', {'idents': {'A': ('seq', [M((K('f'), S('a'))), M((K('f', 'str'), ('i', 1)))])}, 'cond': ('id', 'A')})
     add('sequence', 'f|str(f)|g', {'idents': {'A': ('seq', [M((K('f'), S('a*'))), M((K('f', 'str'), S('1*'))), M((K('g'), S('b')))])}, 'cond': ('id', 'A')})
+    add('sequence', 'str(f)|f digits', {'idents': {'A': ('seq', [M((K('f', 'str'), S('2*'))), M((K('f'), S('1*')))])}, 'cond': ('id', 'A')})
     add('sequence', 'or3 same field', {'idents': {'A': M((K('f'), S('ab*'))), 'B': M((K('f'), S('*c'))), 'C': M((K('f'), S('*d*')))},
                                        'cond': ('or', ('or', ('id', 'A'), ('id', 'B')), ('id', 'C'))})
     add('sequence', 'seq3 same field', {'idents': {'A': ('seq', [M((K('f'), S('abc*'))), M((K('f'), S('*c'))), M((K('f'), S('*bd*')))])}, 'cond': ('id', 'A')})
